@@ -50,6 +50,15 @@ func (c *Case) actionText(i int, lang string) string {
 		return txt
 	}
 	sep := "; "
+	abort := ""
+	if r.Act.Abort {
+		// the user's action gives up (panics) after $$ was assigned: an abandoned parse
+		if lang == "go" {
+			abort = sep + "if $$ % 5 == 2 { panic(\"vh-abort\") }"
+		} else {
+			abort = sep + "if ($$ % 5 == 2) { throw new Error(\"vh-abort\") }"
+		}
+	}
 	if r.Act.Kind == "int" {
 		terms := []string{fmt.Sprint(r.Act.Coefs[0])}
 		for k, a := range r.Act.Args {
@@ -66,9 +75,9 @@ func (c *Case) actionText(i int, lang string) string {
 		}
 		if len(r.Act.Coefs) > 0 && r.Act.Coefs[0]%2 == 1 {
 			// same value, written with several occurrences of $$ (every one of them must be substituted)
-			return txt + sep + "$$ = " + terms[0] + sep + "$$ = ($$ + " + strings.Join(append([]string{"0"}, terms[1:]...), " + ") + ") % " + fmt.Sprint(valMod)
+			return txt + sep + "$$ = " + terms[0] + sep + "$$ = ($$ + " + strings.Join(append([]string{"0"}, terms[1:]...), " + ") + ") % " + fmt.Sprint(valMod) + abort
 		}
-		return txt + sep + "$$ = (" + strings.Join(terms, " + ") + ") % " + fmt.Sprint(valMod)
+		return txt + sep + "$$ = (" + strings.Join(terms, " + ") + ") % " + fmt.Sprint(valMod) + abort
 	}
 	// str
 	parts := []string{}
